@@ -117,6 +117,71 @@ func init() {
 			})
 			return out
 		}
+		// ---- the open phase
+		rpv2 := findFunc(v2, "Service", "runPipeline")
+		var openPart []ast.Stmt
+		started := false
+		for _, st := range rpv2.Body.List {
+			text := src(st)
+			if !started && strings.Contains(text, "rp.sink.Open(ctx)") {
+				started = true
+			}
+			if started {
+				if ds, ok := st.(*ast.DeclStmt); ok && strings.Contains(src(ds), "workersWg") {
+					break
+				}
+				openPart = append(openPart, st)
+			}
+		}
+		if len(openPart) == 0 {
+			panic("runPipeline: open part not found")
+		}
+		b.P("/-- v2 `runPipeline`: from `rp.sink.Open` up to (excluding) `var workersWg` — the open phase and its rollback -/")
+		b.P("def v2OpenPhase : List String := %s", leanStrList(tbFlatten(openPart, "", nil)))
+		noLog := func(ls []string, pre string) []string {
+			var out []string
+			for _, l := range ls {
+				if !strings.Contains(l, pre) {
+					out = append(out, l)
+				}
+			}
+			return out
+		}
+		b.P("/-- `funnel.(*Worker).Open` and `funnel.(*Sink).Open`, whole bodies -/")
+		b.P("def workerOpen : List String := %s", leanStrList(tbFlatten(findFunc(fw, "Worker", "Open").Body.List, "", nil)))
+		b.P("def sinkOpen : List String := %s", leanStrList(tbFlatten(findFunc(fs, "Sink", "Open").Body.List, "", nil)))
+		b.P("/-- `funnel.(*ProcessorTask).Open`, logging skipped -/")
+		b.P("def processorTaskOpen : List String := %s", leanStrList(noLog(tbFlatten(findFunc(ft, "ProcessorTask", "Open").Body.List, "", nil), "t.logger.")))
+		// v1: every node is run
+		rpv1 := findFunc(v1, "Service", "runPipeline")
+		var nodeLoop []string
+		for _, st := range rpv1.Body.List {
+			if rs, ok := st.(*ast.RangeStmt); ok && src(rs.X) == "rp.n" {
+				for _, bs := range rs.Body.List {
+					if es, ok := bs.(*ast.ExprStmt); ok {
+						if c, ok := es.X.(*ast.CallExpr); ok {
+							lab := src(c.Fun)
+							if fl, ok := c.Args[0].(*ast.FuncLit); ok && len(c.Args) == 1 {
+								runs := 0
+								ast.Inspect(fl.Body, func(x ast.Node) bool {
+									if cc, ok := x.(*ast.CallExpr); ok && src(cc.Fun) == "node.Run" {
+										runs++
+									}
+									return true
+								})
+								lab += " { " + strings.Repeat("node.Run ", runs) + "}"
+							}
+							nodeLoop = append(nodeLoop, lab)
+							continue
+						}
+					}
+					nodeLoop = append(nodeLoop, tbFlatten([]ast.Stmt{bs}, "", nil)...)
+				}
+			}
+		}
+		b.P("/-- v1 `runPipeline`: the top-level statements of `for _, node := range rp.n` (closures: the `node.Run` calls inside) -/")
+		b.P("def v1NodeLoop : List String := %s", leanStrList(nodeLoop))
+
 		b.P("/-- builder calls in source order -/")
 		b.P("def v2BuilderOrder : List String := %s", leanStrList(order(v2, "buildRunnablePipeline",
 			"buildSourceTasks", "buildDestinationTasks", "buildProcessorTasks", "buildSharedTail", "NewSink", "NewWorker")))
